@@ -1227,4 +1227,19 @@ theorem arrives_executed (ro : List Str) (env : List (Str × Val)) (hok : EnvOk 
     have hl := mem_lookup hok.distinct (show (kv.1, kv.2) ∈ env from h1)
     simp [wanted, h2, h3, hl] at hw
 
+theorem executed_keys {ro : List Str} {env : List (Str × Val)} {nonexp : List Str} {a : Assign}
+    (ha : a ∈ executed ro env nonexp) : ∃ kv ∈ env, a.key = kv.1 := by
+  simp only [executed, List.mem_append, List.mem_map, List.mem_filter] at ha
+  rcases ha with ⟨kv, ⟨hkv, _⟩, rfl⟩ | ⟨kv, ⟨hkv, _⟩, rfl⟩
+  · exact ⟨kv, (mem_items.1 hkv).1, rfl⟩
+  · exact ⟨kv, (mem_items.1 hkv).1, rfl⟩
+
+theorem runIn_eq_run (frame : List Str) (st : Store) (as : List Assign) (h : ∀ a ∈ as, a.key ∉ frame) :
+    st.runIn frame as = st.run as := by
+  unfold Store.runIn
+  congr 1
+  rw [List.filter_eq_self]
+  intro a ha
+  simp [h a ha]
+
 end Pkgcore.C31
